@@ -263,6 +263,19 @@ def run(R):
         ve = tonic.body(re.compile(r'<metadata::encoding::Binary as metadata::encoding::value_encoding::Sealed>::values_equal$'))
         R.check(len(ve.calls(name='decode')) == 2, 'C08.R5', 'values_equal-decodes-both', site(ve), 'Binary::values_equal compares decoded bytes (decode calls: %d)' % len(ve.calls(name='decode')))
 
+    # ---------------------------------------------------------------- R8 metadata of statuses on their way out
+    R.describe('C08.R8', 'the metadata of a status reaches the wire on every path: Status::to_header_map always goes through add_header (which extends the map with the whole metadata); a Status recovered from an error chain keeps its metadata')
+    with R.guard('C08.R8'):
+        th = tonic.body('status::Status::to_header_map')
+        R.saw(th)
+        ah = th.calls(name='add_header')
+        oka = len(ah) == 1 and all(th.must_pass(0, rb_, [ah[0][0]]) for rb_ in th.return_blocks()) and bool(th.return_blocks())
+        R.check(oka, 'C08.R8', 'to_header_map-always-add_header', site(th), 'every path of to_header_map to a return passes through add_header (no fast path that emits grpc-status alone and forgets the trailing metadata): %r' % oka)
+        ih = tonic.body('status::Status::into_http')
+        ahi = ih.calls(name='add_header')
+        R.check(len(ahi) == 1 and all(ih.must_pass(0, rb_, [ahi[0][0]]) for rb_ in ih.return_blocks()), 'C08.R8', 'into_http-always-add_header', site(ih), 'Status::into_http always writes the status with add_header')
+        check_recovered_status(R, tonic, 'C08.R8', ('metadata',))
+
     # ---------------------------------------------------------------- R7 type-level witnesses (E4)
     R.describe('C08.R7', 'compile-fail witnesses against the public API: the typed accessors cannot hand a binary entry out as Ascii (or vice versa), '
                          'an Ascii value cannot be stored under insert_bin (or vice versa), the sanitiser bypass is not callable from outside tonic; each with a compiling twin')
